@@ -457,7 +457,9 @@ def run(ctx):
                 emitted.add(name)
     if not emitted:
         raise AnalysisError('the comparison nodes emit no __Pyx_ helper by name any more')
+    from ..rules import switchpol
     return [
+        switchpol.rule_switch_polarity(ctx),
         rule_SWITCH(ctx),
         rule_ONCE(ctx),
         rule_SHORT(ctx),
